@@ -2,7 +2,6 @@ package c12
 
 import (
 	"fmt"
-	"sort"
 	"strconv"
 	"strings"
 )
@@ -16,6 +15,7 @@ type world interface {
 	defmethods(i int) string                        // generic function g: one :before and one primary per class
 	precedence(i int) string                        // "c2 c0 standard-object t" | "nil" | "ERR:<class>"
 	make(i int, sigma []string) (h int, res string) // instance handle, "ok" | "ERR:<class>"
+	evaluated() string                              // labels of the default-initarg forms the last make evaluated, in order, "," separated
 	slots(h int) []string                           // per slotNames: "none" | "unb" | "v:<value>" | "ERR:<class>"
 	slotValue(h int, slot string) string            // (slot-value inst 'slot): "v:<value>" | "ERR:<class>"
 	typeps(h int, n int) string                     // "c0=t c1=nil so=t"
@@ -24,6 +24,18 @@ type world interface {
 	accessor(hx, hy int, slot string) string        // see judgeAccessor
 	warm(i int)                                     // make an instance and call g on it (fills dispatch caches)
 	close()
+
+	// extended probes (case flag x), see ext.go
+	setExt()
+	initTrace(h int) string
+	slotops(hx, hy int, slot string) string
+	subtypeps(i, n int) string
+	share(hx, hy int, others []int, slot string, cls int) string
+	changeClass(h, j, n int) string // "res=ok;after=<slots>;cof=..;typep=..;disp=.." | "res=ERR.."
+	makeLogged(i int, sigma []string) (h int, res string)
+	oldInst(i int) (h int, ok bool)
+	precOf(h int) string
+	flushDispatch()
 }
 
 type obsMap map[string]string
@@ -31,7 +43,7 @@ type obsMap map[string]string
 func cname(i int) string { return "c" + strconv.Itoa(i) }
 
 // observeFinal collects every observation of the end state.
-func observeFinal(w world, defs []classDef) obsMap {
+func observeFinal(w world, defs []classDef, ext bool) obsMap {
 	o := obsMap{}
 	n := len(defs)
 	for i := 0; i < n; i++ {
@@ -44,6 +56,9 @@ func observeFinal(w world, defs []classDef) obsMap {
 			o[fmt.Sprintf("M|%d|%s", i, st)] = res
 			if res != "ok" {
 				continue
+			}
+			if usesDefaults(defs) {
+				o[fmt.Sprintf("E|%d|%s", i, st)] = "ev=" + w.evaluated()
 			}
 			states := w.slots(h)
 			for k, sl := range slotNames {
@@ -79,6 +94,9 @@ func observeFinal(w world, defs []classDef) obsMap {
 			o[fmt.Sprintf("A|%d|%s", i, sl)] = w.accessor(hx, hy, sl)
 		}
 	}
+	if ext {
+		observeExt(w, defs, o)
+	}
 	return o
 }
 
@@ -104,6 +122,7 @@ type finding struct {
 	obs    string // dispatch: the observation
 	got    string // slot-init: class of the observed state
 	shared bool   // slot-init: the wanted value comes from an initarg that names two slots
+	short  string // a complete trigger-based signature (replaces aspect/kind/... and carries no order class)
 	detail string
 }
 
@@ -199,11 +218,17 @@ func orderFor(defs []classDef, i int, obs string) []int {
 }
 
 type slotWant struct {
-	exists bool
-	alts   []string // acceptable states
-	src    string   // initarg | initarg-multi | initform | unbound | none
-	keys   []string // supplied matching initargs
+	exists  bool
+	alts    []string // acceptable states
+	src     string   // initarg | initarg-multi | default | default-multi | initform | unbound | none
+	keys    []string // supplied matching initargs
+	shared  bool     // the most specific declaration says :allocation :class
+	labels  []string // default: trace labels of the default forms whose value may be used
+	defFrom string   // default: own | inherited (where the winning default is written, seen from the class)
 }
+
+// defaultLabel is what the default form of initarg a in class x logs when it is evaluated.
+func defaultLabel(x int, a string) string { return fmt.Sprintf("d%d%s", x, a) }
 
 func expectSlot(defs []classDef, order []int, slot string, sigma []string) slotWant {
 	w := slotWant{}
@@ -221,6 +246,12 @@ func expectSlot(defs []classDef, order []int, slot string, sigma []string) slotW
 		w.src = "none"
 		return w
 	}
+	for _, x := range order {
+		if sd, ok := defs[x].slot(x, slot); ok {
+			w.shared = sd.shared // the most specific declaration decides the allocation
+			break
+		}
+	}
 	for _, a := range sigma {
 		if declared[a] {
 			w.keys = append(w.keys, a)
@@ -233,6 +264,32 @@ func expectSlot(defs []classDef, order []int, slot string, sigma []string) slotW
 		return w
 	case 1 < len(w.keys):
 		w.src = "initarg-multi"
+		return w
+	}
+	// :default-initargs: for every initarg of the slot the default of the most specific class that gives one
+	for _, a := range argOrder {
+		if !declared[a] {
+			continue
+		}
+		for k, x := range order {
+			if v, has := defs[x].defaults(x)[a]; has {
+				w.alts = append(w.alts, "v:"+strconv.Itoa(v))
+				w.labels = append(w.labels, defaultLabel(x, a))
+				if k == 0 {
+					w.defFrom = "own"
+				} else if w.defFrom == "" {
+					w.defFrom = "inherited"
+				}
+				break
+			}
+		}
+	}
+	switch {
+	case len(w.alts) == 1:
+		w.src = "default"
+		return w
+	case 1 < len(w.alts):
+		w.src = "default-multi"
 		return w
 	}
 	for _, x := range order {
@@ -249,6 +306,22 @@ func expectSlot(defs []classDef, order []int, slot string, sigma []string) slotW
 	w.src = "unbound"
 	w.alts = []string{"unb"}
 	return w
+}
+
+// classAlloc: some declaration of the slot along the precedence order says :allocation :class.
+func classAlloc(defs []classDef, order []int, slot string) bool {
+	for _, x := range order {
+		if sd, ok := defs[x].slot(x, slot); ok && sd.shared {
+			return true
+		}
+	}
+	return false
+}
+
+// classSlotSig: findings about a slot with a class-allocated declaration anywhere in the precedence list get one family of
+// short signatures (what fails, the effective allocation, where the slot is declared), without redefinition and order classes.
+func classSlotSig(defs []classDef, order []int, i int, slot, what string) string {
+	return fmt.Sprintf("aspect=class-slot kind=%s effective-allocation=%s", what, allocText(expectSlot(defs, order, slot, nil).shared))
 }
 
 func inList(s string, l []string) bool {
@@ -308,6 +381,9 @@ func gotClass(state string) string {
 		if 900 <= n {
 			return "written"
 		}
+		if 300 <= n && n < 400 {
+			return "default-initarg"
+		}
 		return "initform"
 	}
 	return "other"
@@ -335,7 +411,7 @@ func nilFormRel(defs []classDef, order []int) string {
 
 // judgeFinal applies the oracle to the observations of one end state.
 // only: when non-nil restricts the verdict to these classes.
-func judgeFinal(defs []classDef, o obsMap) []finding {
+func judgeFinal(defs []classDef, o obsMap, jc judgeCtx) []finding {
 	var out []finding
 	n := len(defs)
 	add := func(key string, cls int, aspect, kind, extra, detail string) {
@@ -377,7 +453,7 @@ func judgeFinal(defs []classDef, o obsMap) []finding {
 			for _, sl := range slotNames {
 				w := expectSlot(defs, order, sl, sigma)
 				wants[sl] = w
-				if w.src == "initarg-multi" {
+				if w.src == "initarg-multi" || w.src == "default-multi" {
 					multi = true
 				}
 			}
@@ -393,11 +469,26 @@ func judgeFinal(defs []classDef, o obsMap) []finding {
 					fmt.Sprintf("(make-instance '%s%s) => %s", cname(i), sigmaArgs(sigma), mres))
 				continue
 			}
+			evs := map[string]bool{}
+			ek := fmt.Sprintf("E|%d|%s", i, st)
+			if eobs, has := o[ek]; has {
+				for _, l := range strings.Split(strings.TrimPrefix(eobs, "ev="), ",") {
+					evs[l] = true
+				}
+			}
 			for _, sl := range slotNames {
 				sk := fmt.Sprintf("S|%d|%s|%s", i, st, sl)
 				got := o[sk]
 				w := wants[sl]
+				if w.shared && got != "none" && !isErr(got) {
+					continue // a class slot: which value it holds after make-instance is judged by the sharing probe (ext.go)
+				}
 				if inList(got, w.alts) {
+					if w.src == "default" && !evs[w.labels[0]] {
+						add(ek, i, "default-initargs", "value-without-evaluation-at-make-instance", "",
+							fmt.Sprintf("(make-instance '%s%s): slot %s holds the value of the default form %s but that form was not evaluated during this call (evaluated: %s)",
+								cname(i), sigmaArgs(sigma), sl, w.labels[0], o[ek]))
+					}
 					continue
 				}
 				shared := 0
@@ -410,11 +501,37 @@ func judgeFinal(defs []classDef, o obsMap) []finding {
 				if 0 < shared {
 					extra += fmt.Sprintf(" initarg-names-slots=%d", shared)
 				}
+				if w.defFrom != "" {
+					extra += " default-written-in=" + w.defFrom
+				}
+				if w.shared {
+					extra += " allocation=class"
+				}
 				add(sk, i, "slot-init", "wrong-state", extra,
 					fmt.Sprintf("(make-instance '%s%s): slot %s is %s, expected %s (%s; precedence %s)", cname(i), sigmaArgs(sigma), sl, got,
 						strings.Join(w.alts, " or "), w.src, precText(order)))
 				out[len(out)-1].got = gotClass(got)
 				out[len(out)-1].shared = w.src == "initarg" && shared == 2 && (gotClass(got) == "unbound" || gotClass(got) == "initform")
+				if classAlloc(defs, order, sl) {
+					out[len(out)-1].short = classSlotSig(defs, order, i, sl, fmt.Sprintf("state-after-make-instance want=%s got=%s", w.src, gotClass(got)))
+				}
+				if strings.HasPrefix(w.src, "default") && gotClass(got) == "default-initarg" {
+					// the default initarg of another class than the most specific one was used
+					out[len(out)-1].short = "aspect=slot-init kind=default-initarg-of-less-specific-class-used most-specific-default-written-in=" + w.defFrom
+				}
+				if strings.HasPrefix(w.src, "default") && w.defFrom == "inherited" {
+					// trigger: the class inherits a default initarg; the slot is in the state it would have if only the
+					// class' OWN :default-initargs counted
+					own := append([]classDef(nil), defs...)
+					for x := range own {
+						if x != i {
+							own[x].dopt = ""
+						}
+					}
+					if inList(got, expectSlot(own, order, sl, sigma).alts) {
+						out[len(out)-1].short = "aspect=slot-init kind=inherited-default-initarg-not-applied got=" + gotClass(got)
+					}
+				}
 			}
 			if len(sigma) != 0 {
 				continue
@@ -471,9 +588,9 @@ func judgeFinal(defs []classDef, o obsMap) []finding {
 			}
 			dk := fmt.Sprintf("D|%d", i)
 			if dobs, has := o[dk]; has {
-				want := "val=" + cname(i) + " trace=" + strings.Join(listedClasses, ",")
+				want := expectedDispatch(listedClasses, jc.ext)
 				if dobs != want {
-					add(dk, i, "dispatch", dispatchKind(dobs, cname(i), listedClasses), "",
+					add(dk, i, "dispatch", dispatchKind(dobs, want), "",
 						fmt.Sprintf("generic call on an instance of %s: %s; the precedence list %s requires %s", cname(i), dobs, pobs, want))
 					out[len(out)-1].obs = dobs
 				}
@@ -482,11 +599,29 @@ func judgeFinal(defs []classDef, o obsMap) []finding {
 		for _, sl := range slotNames {
 			ak := fmt.Sprintf("A|%d|%s", i, sl)
 			if aobs, has := o[ak]; has && expectSlot(defs, order, sl, nil).exists {
-				if kind, detail := judgeAccessor(aobs, sl); kind != "" {
+				if kind, detail := judgeAccessor(aobs, sl, expectSlot(defs, order, sl, nil).shared); kind != "" {
 					add(ak, i, "accessor", kind, "slot-decl="+declRel(defs, i, sl),
 						fmt.Sprintf("reader/accessor/writer of slot %s on an instance of %s: %s (%s)", sl, cname(i), detail, aobs))
+					if classAlloc(defs, order, sl) {
+						out[len(out)-1].short = classSlotSig(defs, order, i, sl, "accessor-"+kind)
+					}
 				}
 			}
+		}
+		if jc.ext {
+			// the extended probes have signatures of their own: aspect, kind, qualifiers (and the kind of redefinition for the
+			// instances made before it); no order class
+			judgeExt(defs, o, i, order, pobs, listedClasses, jc, func(key string, cls int, aspect, kind, extra, detail string) {
+				add(key, cls, aspect, kind, extra, detail)
+				sig := "aspect=" + aspect + " kind=" + kind
+				if extra != "" {
+					sig += " " + extra
+				}
+				if aspect == "old-instance" {
+					sig += " redef=" + jc.redefKind
+				}
+				out[len(out)-1].short = sig
+			})
 		}
 	}
 	return out
@@ -511,7 +646,7 @@ func relTo(defs []classDef, i, j int, anc map[int]bool) string {
 	return "unrelated"
 }
 
-func dispatchKind(obs, self string, want []string) string {
+func dispatchKind(obs, wantObs string) string {
 	if isGoFault(obs) {
 		return "go-fault"
 	}
@@ -522,22 +657,36 @@ func dispatchKind(obs, self string, want []string) string {
 	if len(f) != 2 || !strings.HasPrefix(f[0], "val=") || !strings.HasPrefix(f[1], "trace=") {
 		return "malformed"
 	}
-	var got []string
-	if t := strings.TrimPrefix(f[1], "trace="); t != "" {
-		got = strings.Split(t, ",")
+	split := func(o string) []string {
+		if k := strings.Index(o, "trace="); 0 <= k && o[k+6:] != "" {
+			return strings.Split(o[k+6:], ",")
+		}
+		return nil
 	}
-	gs := append([]string(nil), got...)
-	ws := append([]string(nil), want...)
-	sort.Strings(gs)
-	sort.Strings(ws)
-	if strings.Join(gs, ",") == strings.Join(ws, ",") {
+	got, want := split(obs), split(wantObs)
+	if sameSet(got, want) {
 		if strings.Join(got, ",") != strings.Join(want, ",") {
+			// which group of methods is out of order (tokens without a prefix are :before methods)
+			group := func(l []string, p string) string {
+				var out []string
+				for _, t := range l {
+					if strings.HasPrefix(t, p) {
+						out = append(out, t)
+					}
+				}
+				return strings.Join(out, ",")
+			}
+			for _, g := range []struct{ p, name string }{{"r-", "around"}, {"a-", "after"}} {
+				if group(got, g.p) != group(want, g.p) {
+					return g.name + "-methods-order"
+				}
+			}
 			return "before-methods-order"
 		}
 		return "primary-not-most-specific"
 	}
-	for _, g := range gs {
-		if !inList(g, ws) {
+	for _, g := range got {
+		if !inList(g, want) {
 			return "method-of-unlisted-class-applied"
 		}
 	}
@@ -547,7 +696,7 @@ func dispatchKind(obs, self string, want []string) string {
 // judgeAccessor checks "readers, writers and accessors act on that slot only"
 // relative to the OBSERVED start state (S3).
 // format: x0=<s>,<u>;y0=..;read=<r>,<a>|unb;x1=..;y1=..;x2=..;y2=..   or ERR:...
-func judgeAccessor(obs, slot string) (kind, detail string) {
+func judgeAccessor(obs, slot string, shared bool) (kind, detail string) {
 	if isGoFault(obs) {
 		return "go-fault", obs
 	}
@@ -596,7 +745,7 @@ func judgeAccessor(obs, slot string) (kind, detail string) {
 		if !eq(after, want) {
 			return name + "-changed-other-slot", fmt.Sprintf("slots %v -> %v after writing only %s", before, after, slot)
 		}
-		if !eq(other0, other1) {
+		if !shared && !eq(other0, other1) { // a class slot is judged by the sharing probe
 			return name + "-changed-other-instance", fmt.Sprintf("another instance went %v -> %v", other0, other1)
 		}
 		return "", ""
@@ -636,6 +785,15 @@ func sigmaArgs(sigma []string) string {
 
 // redefKind names what the redefinition changes.
 func redefKind(old, nw classDef) string {
+	if old.String() == nw.String() && !nw.bump {
+		return "unchanged"
+	}
+	if supText(old.supers) == supText(nw.supers) && old.sopt == nw.sopt && old.uopt == nw.uopt && old.dopt != nw.dopt {
+		if nw.dopt == "" {
+			return "default-initargs-removed"
+		}
+		return "default-initargs-added"
+	}
 	if supText(old.supers) != supText(nw.supers) {
 		os, ns := map[int]bool{}, map[int]bool{}
 		for _, x := range old.supers {
